@@ -1,3 +1,3 @@
-CONSTANTS Want = {"C36_Operand", "C36_RejectedBeforeCommand", "C36_TraceAccepted", "C36_DomainCovered", "Conforms"}
+CONSTANTS Want = {"C36_Operand", "C36_ComponentIntact", "C36_RejectedBeforeCommand", "C36_TraceAccepted", "C36_DomainCovered", "Conforms"}
 SPECIFICATION TSpec
 CHECK_DEADLOCK FALSE
